@@ -68,6 +68,7 @@ const FILES: &[&str] = &[
     "rel/d.js",
     "e.js",
     "/app/src/n\u{e4}me \u{fc}.js",
+    "/app/issue#12/what?.js",
 ];
 
 fn dir_of(f: &str) -> String {
@@ -161,8 +162,12 @@ fn plan16(seed: u64, run: u64, tier: Tier) -> Plan16 {
         o.comments = rng.chance(1, 2);
         o.crlf = rng.chance(1, 8);
         o.unicode = rng.chance(1, 4);
-        let kind = rng.weighted(&[8, 3, 2, 2, 3, 1]);
+        let kind = rng.weighted(&[8, 3, 2, 2, 3, 1, 1]);
         let (kind_s, mut text) = match kind {
+            6 => {
+                let n = *rng.pick(jsgen::BOUNDARY);
+                ("wide", jsgen::gen_wide(&mut rng, n))
+            }
             5 => {
                 let n = rng.range(200, 420);
                 ("many-literals", jsgen::gen_many_literals(&mut rng, n))
